@@ -52,46 +52,54 @@ def check(prog, run):
     def ob(rule, role, ok, detail, witness="", node=None):
         run.ob(rule, fi.qual, role, ok, detail, witness=witness or detail[:90], file=f, node=node)
 
-    # ---- the conjunction
-    tests = []
-    for n in ast.walk(fi.node):
-        if isinstance(n, ast.If):
-            names = {x.id for x in ast.walk(n.test) if isinstance(x, ast.Name)}
-            exp_names = {x.id for x in ast.walk(astq.expr_at(fi, n, n.test)) if isinstance(x, ast.Name)}
-            if set(tol) & (names | exp_names):
-                tests.append(n)
-    if not tests:
-        ob("R-neighbour", "tolerance test", False, "no test against err_fn/err_xi/err_phi found in SC_apply", "missing")
-        return
-    ifn = tests[0]
-    test = ifn.test
-    if not isinstance(test, ast.BoolOp):
-        # the conjunction may sit in a helper predicate: decide on the inlined test
-        x = astq.expr_at(fi, ifn, test)
-        while isinstance(x, ast.Call) and isinstance(x.func, ast.Name) and x.func.id == "bool" and len(x.args) == 1:
-            x = x.args[0]
-        if isinstance(x, ast.BoolOp):
-            test = x
-    conj = isinstance(test, ast.BoolOp) and isinstance(test.op, ast.And)
-    parts = test.values if isinstance(test, ast.BoolOp) else [test]
-    okconj = conj and len(parts) == 3
-    if not okconj and not isinstance(test, (ast.BoolOp, ast.Compare)):
-        okconj = None        # not a boolean combination of comparisons at all: form not recognised
-    if not okconj and okconj is not None:
-        # tolerances that are tested elsewhere (element-wise masks, earlier guards) take part in the decision in a way this rule does not
-        # follow: the conjunction cannot be judged from this `if` alone
-        in_test = {x.id for x in ast.walk(test) if isinstance(x, ast.Name)} & set(tol)
-        elsewhere = set()
+    # ---- the conjunction: first on the index-level model of the function (sa/lamdom.py: the scalar conditions under which label 1 is
+    # stored, whatever mixture of loops, masks and helpers computes them), else on the `if` statement as written
+    lam = _lam_conditions(prog, fi, tF, tX, tP, set(tol))
+    if lam is not None:
+        parts, ifn, okconj, shown = lam["parts"], lam["node"], lam["okconj"], lam["shown"]
+        ob("R-neighbour", "three tests joined by `and`", okconj, f"`{shown}`", shown[:80], ifn)
+        lowered = True
+    else:
+        lowered = False
+        tests = []
         for n in ast.walk(fi.node):
-            if isinstance(n, ast.Compare) and not any(n is x for x in ast.walk(ifn.test)):
-                elsewhere |= {x.id for x in ast.walk(n) if isinstance(x, ast.Name)} & set(tol)
-        if elsewhere - in_test:
-            okconj = None
-    ob("R-neighbour", "three tests joined by `and`", okconj, f"`{astq.src(test, 80)}`", astq.src(test, 80), ifn)
+            if isinstance(n, ast.If):
+                names = {x.id for x in ast.walk(n.test) if isinstance(x, ast.Name)}
+                exp_names = {x.id for x in ast.walk(astq.expr_at(fi, n, n.test)) if isinstance(x, ast.Name)}
+                if set(tol) & (names | exp_names):
+                    tests.append(n)
+        if not tests:
+            ob("R-neighbour", "tolerance test", False, "no test against err_fn/err_xi/err_phi found in SC_apply", "missing")
+            return
+        ifn = tests[0]
+        test = ifn.test
+        if not isinstance(test, ast.BoolOp):
+            # the conjunction may sit in a helper predicate: decide on the inlined test
+            x = astq.expr_at(fi, ifn, test)
+            while isinstance(x, ast.Call) and isinstance(x.func, ast.Name) and x.func.id == "bool" and len(x.args) == 1:
+                x = x.args[0]
+            if isinstance(x, ast.BoolOp):
+                test = x
+        conj = isinstance(test, ast.BoolOp) and isinstance(test.op, ast.And)
+        parts = test.values if isinstance(test, ast.BoolOp) else [test]
+        okconj = conj and len(parts) == 3
+        if not okconj and not isinstance(test, (ast.BoolOp, ast.Compare)):
+            okconj = None        # not a boolean combination of comparisons at all: form not recognised
+        if not okconj and okconj is not None:
+            # tolerances that are tested elsewhere (element-wise masks, earlier guards) take part in the decision in a way this rule does not
+            # follow: the conjunction cannot be judged from this `if` alone
+            in_test = {x.id for x in ast.walk(test) if isinstance(x, ast.Name)} & set(tol)
+            elsewhere = set()
+            for n in ast.walk(fi.node):
+                if isinstance(n, ast.Compare) and not any(n is x for x in ast.walk(ifn.test)):
+                    elsewhere |= {x.id for x in ast.walk(n) if isinstance(x, ast.Name)} & set(tol)
+            if elsewhere - in_test:
+                okconj = None
+        ob("R-neighbour", "three tests joined by `and`", okconj, f"`{astq.src(test, 80)}`", astq.src(test, 80), ifn)
     idx_exprs = {}
     curcols = {}
     for part in parts:
-        x = astq.expr_at(fi, ifn, part)
+        x = part if lowered else astq.expr_at(fi, ifn, part)
         if not (isinstance(x, ast.Compare) and len(x.ops) == 1):
             ob("R-neighbour", "test form", None, f"`{astq.src(part)}` is not a simple comparison", node=ifn)
             continue
@@ -174,13 +182,23 @@ def check(prog, run):
         ok = ra is not None and ra[0] == P.s(p_ordmin) and ra[1] == P.s(p_ordmax) + 1 and ra[2] == P.s(p_step)
         ob("R-neighbour", "orders run over range(ordmin, ordmax+1, step)", ok, f"range({', '.join(repr(x) for x in ra) if ra else '?'})", repr(ra), outer)
         if curcols and isinstance(outer.target, ast.Name):
-            cexpr = astq.expr_at(fi, ifn, next(iter(curcols.values())))
+            cexpr = next(iter(curcols.values())) if lowered else astq.expr_at(fi, ifn, next(iter(curcols.values())))
             v = se.ev(cexpr)
             expc = P.s(outer.target.id) * P({((p_step, -1),): 1})
             okc = v is not None and (v == expc or repr(v) == f"floor({outer.target.id}/{p_step})" or "floor" in repr(v))
             ob("R-neighbour", "column index = order / step", okc, f"column = {astq.src(cexpr, 40)} = {v!r}", repr(v), outer)
             skip = False
-            for s in outer.body:
+            if lowered:
+                # the store is reached only when `column == 0` is false
+                for c_, pol_ in lam["path"]:
+                    if not pol_ and isinstance(c_, ast.Compare) and len(c_.ops) == 1 and isinstance(c_.ops[0], ast.Eq):
+                        a, b = c_.left, c_.comparators[0]
+                        if (isinstance(b, ast.Constant) and b.value == 0 and astq.dump(a) == astq.dump(cexpr)) or (isinstance(a, ast.Constant) and a.value == 0 and astq.dump(b) == astq.dump(cexpr)):
+                            skip = True
+                    if pol_ and isinstance(c_, ast.Compare) and len(c_.ops) == 1 and isinstance(c_.ops[0], (ast.Gt, ast.NotEq)) and isinstance(c_.comparators[0], ast.Constant) \
+                            and c_.comparators[0].value == 0 and astq.dump(c_.left) == astq.dump(cexpr):
+                        skip = True
+            for s in ([] if lowered else outer.body):
                 if isinstance(s, ast.If) and any(isinstance(x, ast.Continue) for x in s.body):
                     t = astq.expr_at(fi, s, s.test)
                     if isinstance(t, ast.Compare) and len(t.ops) == 1 and isinstance(t.ops[0], ast.Eq):
@@ -213,14 +231,69 @@ def check(prog, run):
                 v = n.value
                 vals.append(v.value if isinstance(v, ast.Constant) else astq.src(v))
                 el = astq.index_elts(t)
-                if len(el) == 2 and curcols:
+                if len(el) == 2 and curcols and not lowered:
                     c = astq.expr_at(fi, n, el[1])
                     if astq.dump(c) != astq.dump(astq.expr_at(fi, ifn, next(iter(curcols.values())))) or not _is_loop_row(el[0]):
                         okpos = False
+        if lowered and curcols:
+            for st_ in lam["stores"]:
+                ix = st_["index"]
+                if len(ix) != 2 or any(not hasattr(x, "body") for x in ix) or not _is_loop_row(ix[0].body) or astq.dump(ix[1].body) != astq.dump(next(iter(curcols.values()))):
+                    okpos = False
         ob("R-pure", "labels written are the constants 0/1 at (pole i, order o)", set(vals) <= {0, 1} and 1 in vals and okpos, f"values {vals}", str(vals))
-        one_in_then = any(isinstance(n.value, ast.Constant) and n.value.value == 1 and any(n is x for b in ifn.body for x in ast.walk(b)) for n, t in stores)
+        one_in_then = bool(lam["parts"]) if lowered else any(isinstance(n.value, ast.Constant) and n.value.value == 1 and any(n is x for b in ifn.body for x in ast.walk(b)) for n, t in stores)
         ob("R-neighbour", "label 1 is written in the success branch of the conjunction", one_in_then, "store of 1 inside the `if` body" if one_in_then else "label 1 not written under the test", "misplaced")
     labels_readers(prog, run)
+
+
+def _lam_conditions(prog, fi, tF, tX, tP, tolnames):
+    """the scalar conditions under which the constant 1 is stored into the label array, from the index-level interpretation of the
+    function (None if that does not reach a store of 1 with every condition evaluated)"""
+    from .. import lamdom
+    pos, kwo, _, _ = astq.params_of(fi.node)
+    ranks = {p_: 0 for p_ in pos + kwo}
+    ranks.update({tF: 2, tX: 2, tP: 3})
+    try:
+        it = lamdom.Interp(prog, fi, ranks=ranks).run()
+    except Exception:
+        return None
+    def const_of(st):
+        v = st["value"]
+        return v.body.value if isinstance(v, lamdom.Lam) and v.scalar and isinstance(v.body, ast.Constant) else None
+    ones = [st for st in it.stores if const_of(st) == 1]
+    if len(ones) != 1:
+        return None
+    one = ones[0]
+    lab = one["array"]
+    stores = [st for st in it.stores if st["array"] == lab]
+    atoms = []        # (ast, positive)
+    def flat(c, pol):
+        if pol and isinstance(c, ast.BoolOp) and isinstance(c.op, ast.And):
+            for v in c.values:
+                flat(v, True)
+        elif not pol and isinstance(c, ast.BoolOp) and isinstance(c.op, ast.Or):
+            for v in c.values:
+                flat(v, False)
+        elif isinstance(c, ast.UnaryOp) and isinstance(c.op, ast.Not):
+            flat(c.operand, not pol)
+        else:
+            atoms.append((c, pol))
+    for c, pol in one["path"]:
+        flat(c, pol)
+    mentions = lambda c: bool({x.id for x in ast.walk(c) if isinstance(x, ast.Name)} & tolnames)
+    tol_atoms = [(c, pol) for c, pol in atoms if mentions(c)]
+    if not tol_atoms:
+        return None
+    # every name inside the tolerance tests must be a table, a tolerance or an index: otherwise the lowering is incomplete
+    known = set(pos + kwo)
+    for c, pol in tol_atoms:
+        for sub in ast.walk(c):
+            if isinstance(sub, ast.Subscript) and isinstance(sub.value, ast.Name) and sub.value.id not in known:
+                return None
+    good = [c for c, pol in tol_atoms if pol and isinstance(c, ast.Compare)]
+    okconj = len(tol_atoms) == 3 and len(good) == 3
+    shown = " and ".join(("" if pol else "not ") + astq.src(c, 60) for c, pol in tol_atoms)
+    return {"parts": [c for c, pol in tol_atoms], "node": one["node"], "okconj": okconj, "shown": shown, "path": one["path"], "stores": stores}
 
 
 def _walk_values(e):
